@@ -2,7 +2,8 @@
 (* Driver of component 'master' (coq/Extract/XMaster.v).  Nodes are 0..n-1 = positions.
    common prefix:  n | per node: deg nbrs.. | rc (n q) | ne, per ordered pair: u v q | p (len q..)
    EVAL prefix t                              -> OK v1 | v2 | ... (master_eval)
-   CUT  prefix j | U (len ints) | pairs (len, c1 c2 ..) | a i b k   -> OK v1 | v2 (cut_eval) *)
+   CUT  prefix j | U (len ints) | pairs (len, c1 c2 ..) | a i b k   -> OK v1 | v2 (cut_eval)
+   TREE prefix                                -> OK <1|0> <number of branch cuts> (tree_check) *)
 let pv l = String.concat " " (List.map sq l)
 let pvs ls = String.concat " | " (List.map pv ls)
 let nnat () = nat_of_int (nint ())
@@ -42,4 +43,8 @@ let () = main (function
       let pairs = nlist (fun () -> let a = nnat () in let b = nnat () in (a, b)) in
       let a = nn () in let i = nnat () in let b = nn () in let k = nnat () in
       out ("OK " ^ pvs (cut_eval g nl idxf trf rcf p j ul pairs a i b k))
+    | "TREE" ->
+      let (g, nl, idxf, _, _, _) = prefix () in
+      let (b, k) = tree_check g nl idxf in
+      out ("OK " ^ (if b then "1" else "0") ^ " " ^ string_of_int (int_of_nat k))
     | c -> out ("BADCMD " ^ c))
